@@ -114,9 +114,17 @@ def cmpState (q r : FPoly) : Option String × String :=
 def refOf (p : Poly) : Option RefPoly :=
   if p.st.empty then some (emptyP p.nnc p.dim)
   else if p.st.cUp && !p.st.gPend then some ⟨p.nnc, p.dim, consOf p.nnc p.cs.rows⟩
-  else if p.st.gUp && !p.st.cPend then some ⟨p.nnc, p.dim, gensToCons p.dim (gensOf p.nnc p.gs.rows)⟩
+  else if p.st.gUp && !p.st.cPend then
+    -- FM projection of the lifted generator system: only when it is small
+    if p.dim ≤ 2 || p.gs.rows.length ≤ (if p.nnc then 3 else 5) then
+      some ⟨p.nnc, p.dim, gensToCons p.dim (gensOf p.nnc p.gs.rows)⟩
+    else none
   else if !p.st.cUp && !p.st.gUp then some (univ p.nnc p.dim)
   else none
+
+/-- `RefPoly.ofGens` when the projection is affordable -/
+def ofGensSmall (nnc : Bool) (n : Nat) (gs : List Gen) : Option RefPoly :=
+  if n ≤ 2 || gs.length ≤ (if nnc then 3 else 5) then some (RefPoly.ofGens nnc n gs) else none
 
 def gensOfPoly (p : Poly) : Option (List Gen) :=
   if p.st.empty then some []
@@ -205,6 +213,9 @@ def parseStep (nnc : Bool) (dimOf : Nat → Nat) (ts : List String) : Option Ste
       | "remove_higher" => some (.removeHigher s (tokNat (args.getD 1 "0")))
       | "unconstrain" => some (.unconstrain s (natList (args.drop 2)))
       | "closure" => some (.closure s)
+      | "expand" => some (.expand s (tokNat (args.getD 1 "0")) (tokNat (args.getD 2 "0")))
+      | "fold" => some (.fold s (natList (args.drop 3)) (tokNat (args.getD 1 "0")))
+      | "map" => some (.mapDims s ((args.drop 2).map fun t => if t.startsWith "-" then none else some (tokNat t)))
       | "intersection" => some (.intersection s (tokNat (args.getD 1 "0")))
       | "hull" => some (.hull s (tokNat (args.getD 1 "0")))
       | "time_elapse" => some (.timeElapse s (tokNat (args.getD 1 "0")))
@@ -247,12 +258,12 @@ def refStep (nnc : Bool) (rw : RWorld) (pre : Nat → FPoly) (op : Op) : RWorld 
   | .equals s t => (rw, match rw s, rw t with | some a, some b => some (b2s (a.equiv b)) | _, _ => none)
   | .relationWithGen s k g => (rw, (rw s).map fun r => b2s (!r.isEmpty && r.subsumes (genOfArg k g)))
   | .bounds s e above =>
-    (rw, (rw s).map fun r =>
+    (rw, ((rw s).filter fun r => r.n ≤ 3 && r.cs.length ≤ 8).map fun r =>
       match (if above then r.sup e else r.inf e) with
       | .unbounded => "0"
       | _ => "1")
   | .maxMin s e mx =>
-    (rw, (rw s).map fun r =>
+    (rw, ((rw s).filter fun r => r.n ≤ 3 && r.cs.length ≤ 8).map fun r =>
       match (if mx then r.sup e else r.inf e) with
       | .val n d att => s!"1 {n} {d} {if att then 1 else 0}"
       | _ => "0")
@@ -261,8 +272,8 @@ def refStep (nnc : Bool) (rw : RWorld) (pre : Nat → FPoly) (op : Op) : RWorld 
     (rw.set s ((rw s).map fun r => r.addCons (Row.toCons nnc c)), none)
   | .addGenerator s k g =>
     let r := match rw s, gensOfPoly (pre s).p with
-      | some r0, some gs => if r0.isEmpty then some (RefPoly.ofGens nnc r0.n (hullGens [[genOfArg k g]]))
-                            else some (RefPoly.ofGens nnc r0.n (hullGens [gs, [genOfArg k g]]))
+      | some r0, some gs => if r0.isEmpty then ofGensSmall nnc r0.n (hullGens [[genOfArg k g]])
+                            else ofGensSmall nnc r0.n (hullGens [gs, [genOfArg k g]])
       | _, _ => none
     (rw.set s r, none)
   | .affineImage s v e den => (rw.set s ((rw s).map (·.affineImage v e den)), none)
@@ -274,26 +285,42 @@ def refStep (nnc : Bool) (rw : RWorld) (pre : Nat → FPoly) (op : Op) : RWorld 
   | .removeHigher s nd => (rw.set s ((rw s).map (·.removeHigherDims nd)), none)
   | .unconstrain s vars => (rw.set s ((rw s).map (·.unconstrain vars)), none)
   | .closure s => (rw.set s ((rw s).map (·.closure)), none)
+  | .expand s v m => (rw.set s ((rw s).map (·.expandDim v m)), none)
+  | .mapDims s f =>
+    let newDim := f.foldl (fun m o => match o with | some k => max m (k + 1) | none => m) 0
+    let pairs := (f.zipIdx.filterMap fun (o, j) => o.map fun k => (j, k))
+    (rw.set s ((rw s).map fun r => if r.n == 0 then r else r.mapDims newDim pairs), none)
+  | .fold s vars dest =>
+    let r := match rw s, gensOfPoly (pre s).p with
+      | some r0, some gs =>
+        if vars.isEmpty then some r0
+        else if gs.isEmpty then some (emptyP nnc (r0.n - vars.length))
+        else if r0.n ≤ 3 && gs.length ≤ 5 then some (r0.foldGens vars dest gs) else none
+      | _, _ => none
+    (rw.set s r, none)
   | .intersection s t => (rw.set s (match rw s, rw t with | some a, some b => some (a.meet b) | _, _ => none), none)
   | .concat s t => (rw.set s (match rw s, rw t with | some a, some b => some (a.concat b) | _, _ => none), none)
   | .hull s t =>
     let r := match rw s, rw t, gensOfPoly (pre s).p, gensOfPoly (pre t).p with
       | some a, some b, some gx, some gy =>
-        if b.isEmpty then some a else if a.isEmpty then some b else some (RefPoly.ofGens nnc a.n (hullGens [gx, gy]))
+        if b.isEmpty then some a else if a.isEmpty then some b else ofGensSmall nnc a.n (hullGens [gx, gy])
       | some a, some b, _, _ => if b.isEmpty then some a else if a.isEmpty then some b else none
       | _, _, _, _ => none
     (rw.set s r, none)
   | .timeElapse s t =>
     let r := match rw s, rw t, gensOfPoly (pre s).p, gensOfPoly (pre t).p with
       | some a, some b, some gx, some gy =>
-        if a.isEmpty || b.isEmpty then some (emptyP nnc a.n) else some (RefPoly.ofGens nnc a.n (timeElapseGens gx gy))
+        if a.isEmpty || b.isEmpty then some (emptyP nnc a.n) else ofGensSmall nnc a.n (timeElapseGens gx gy)
       | some a, some b, _, _ => if a.isEmpty || b.isEmpty then some (emptyP nnc a.n) else none
       | _, _, _, _ => none
     (rw.set s r, none)
   | _ => (rw, none)
 
 def sizeOK (ex : RefPoly) (r : FPoly) (maxRows : Nat) : Bool :=
-  ex.n ≤ 4 && ex.cs.length ≤ 12 && r.p.gs.rows.length ≤ maxRows && r.p.cs.rows.length ≤ 12
+  ex.n ≤ 4 && ex.cs.length ≤ 12 && r.p.cs.rows.length ≤ 12 &&
+    -- `checkDD` (FM on the lifted generator system) only on small generator systems
+    (!(r.p.st.gUp && !r.p.st.cPend && !r.p.st.empty) ||
+      (ex.n ≤ 3 && r.p.gs.rows.length ≤ (if r.p.nnc then maxRows - 3 else maxRows)))
 
 def refSmall (r : Option RefPoly) : Bool := match r with | some x => x.n ≤ 4 && x.cs.length ≤ 12 | none => true
 
@@ -366,7 +393,11 @@ def processLine (line : String) (maxRows : Nat) (resync : Bool) (h : HState) : I
           | some a, _ => if a == ra || ra == "-" then none else some s!"answer real={ra} reference={a}"
           | none, _ => none
         let semAll := semMsgs ++ (match ansSem with | some m => [m] | none => [])
-        let semStr := if semAll.isEmpty then "sem=ok" else "sem=BAD " ++ "; ".intercalate semAll
+        let nChecks := (slots.filter fun i => match rw i with
+          | some ex => sizeOK ex (realW i) maxRows
+          | none => false).length + (if refAns.isSome then 1 else 0)
+        let semStr := if semAll.isEmpty then (if nChecks == 0 then "sem=noref" else s!"sem=ok checks={nChecks}")
+                      else "sem=BAD " ++ "; ".intercalate semAll
         -- a reference that could not be computed is re-seeded from the real state
         -- … and a reference just found K1-equivalent to the real constraint system is replaced by it (it is smaller)
         let rw' := slots.foldl (fun (w : RWorld) i => match w i with
@@ -405,5 +436,5 @@ end PolyFullDriver
 def main (args : List String) : IO UInt32 := do
   let resync := args.contains "--resync"
   let stdin ← IO.getStdin
-  PolyFullDriver.loop stdin 10 resync {}
+  PolyFullDriver.loop stdin 8 resync {}
   return 0
